@@ -261,6 +261,15 @@ fn boundary(rep: &mut Report, k: &Kind) {
             check_list(rep, k, &e2, "many-entries-one-satellite+1");
         }
     }
+    // satellite ids beyond the message's range: must be refused (or survive), alone and among valid ones
+    for bad in [k.max_sat as u16 + 1, 32, 63, 64, 65, 127, 128, 255] {
+        if bad <= k.max_sat as u16 || bad > 255 {
+            continue;
+        }
+        let b = bad as u8;
+        check_list(rep, k, &[(b, k.sigs[0].1, k.sigs[0].2, g(1))], "out-of-range-satellite");
+        check_list(rep, k, &[(0, k.sigs[0].1, k.sigs[0].2, g(1)), (b, k.sigs[1].1, k.sigs[1].2, g(2)), (k.max_sat, k.sigs[0].1, k.sigs[0].2, g(3))], "out-of-range-satellite-among-valid");
+    }
     // empty list
     check_list(rep, k, &[], "empty");
     // extreme bias values on the grid
@@ -373,7 +382,7 @@ pub fn c16(ctx: &Ctx) -> (Report, Meta) {
     rep.sample(json!({"number":1059,"entries":[[63,1,"C",0.37],[0,5,"Q",-1.2],[63,2,"W",0.01]],"expect":"Err, or decodes to the same multiset grouped by ascending satellite"}));
     rep.sample(json!({"number":1059,"scope":"all 64 satellites x 1 signal","expect":"Err (the 6-bit satellite count cannot hold 64) - never a frame that loses entries"}));
     let meta = Meta {
-        rule: "1059 / 1065: every assignment of the satellites {0,1,31,32,63} (clipped to the message's range) to subsets of {first, second, last} recognised signal (8^n - 1 lists), each in every permutation for <= 5 entries (6 structured orders above; capped at 24 per list in quick); boundary scopes: all / all-but-one satellites, 390 and 389 entries, entries of a satellite scattered through the list, all signals on one satellite in every rotation, 31..390 entries on one satellite (repeated signals; relaxed oracle: no key lost, nothing invented), empty list, extreme grid biases; 1230: all signal subsets in all permutations. Oracle: build returns Err, or the built frame decodes to the same multiset of (satellite, signal, bias) with satellites non-decreasing. Hostile frames (63 satellites x 31 biases, payloads 9..1023 bytes, recognised / repeated / unrecognised ids): no panic, at most 390 entries. states = lists / frames; transitions = build and decode calls".into(),
+        rule: "1059 / 1065: every assignment of the satellites {0,1,31,32,63} (clipped to the message's range) to subsets of {first, second, last} recognised signal (8^n - 1 lists), each in every permutation for <= 5 entries (6 structured orders above; capped at 24 per list in quick); boundary scopes: all / all-but-one satellites, 390 and 389 entries, entries of a satellite scattered through the list, all signals on one satellite in every rotation, 31..390 entries on one satellite (repeated signals; relaxed oracle: no key lost, nothing invented), satellite ids beyond the message's range, empty list, extreme grid biases; 1230: all signal subsets in all permutations. Oracle: build returns Err, or the built frame decodes to the same multiset of (satellite, signal, bias) with satellites non-decreasing. Hostile frames (63 satellites x 31 biases, payloads 9..1023 bytes, recognised / repeated / unrecognised ids): no panic, at most 390 entries. states = lists / frames; transitions = build and decode calls".into(),
         exhaustive: true,
         bounds: json!({"satellite_scope":[0,1,31,32,63],"signals_per_satellite":"subsets of 3","permutations":"all for <=5 entries"}),
         assumptions: vec!["bias values are grid values obtained from the real decoder for a given pattern (C08 decides the grid round trip)".into()],
